@@ -59,25 +59,92 @@ theorem encode_classname (package group : Bytes) :
   simp only [encodeRef_append]
   split <;> simp [h1, encodeRef_nil]
 
-theorem testCase_renders (package group : Bytes) (total : Nat) (n : Node) :
-    testCase package group total n = (caseOf package group total n).render := by
-  simp only [testCase, Case.render, caseOf, encode_classname, fmtInt_eq_showInt, fmtTime_eq_showTime,
-    encodeXmlText_eq_ref]
-  cases hf : n.failure with
-  | none => simp only [Option.map_none, List.append_assoc]; rfl
-  | some f =>
-    simp only [Option.map_some, failureElem, encode_failureMessage, fmtInt_eq_showInt, encodeXmlText_eq_ref]
-    simp only [List.append_assoc]
+/-! ## the regenerated statement lists render the structured report -/
 
-theorem testCases_renders (package group : Bytes) : ∀ (nodes : List Node) (total : Nat),
-    testCases package group total nodes = (casesOf package group total nodes).flatMap Case.render
+theorem castInt_small (n : Nat) (h : n < 2147483648) : castInt (n : Int) = (n : Int) := by
+  unfold castInt
+  have h1 : (n : Int) % 4294967296 = n := by omega
+  rw [h1]
+  split
+  · rfl
+  · omega
+
+set_option maxRecDepth 100000 in
+theorem zeroPad3_dec : ∀ n, n < 1000 → zeroPad 3 (dec n) = pad3 n := by decide
+
+/-- `%03d` of `(int)(x % 1000)` is the three digits -/
+theorem fmtPad3_millis (ms : Nat) : fmtPad 3 (castInt ((ms % 1000 : Nat) : Int)) = pad3 (ms % 1000) := by
+  have hlt : ms % 1000 < 1000 := Nat.mod_lt _ (by decide)
+  rw [castInt_small _ (by omega)]
+  unfold fmtPad
+  have : ¬ ((ms % 1000 : Nat) : Int) < 0 := by omega
+  rw [if_neg this]
+  simp only [Int.natAbs_natCast]
+  exact zeroPad3_dec _ hlt
+
+theorem lit_empty : lit "" = [] := by decide
+
+theorem showTime_eq (secs : Int) (m : Nat) : showTime secs m = showInt secs ++ lit "." ++ pad3 m := by
+  have : lit "." = [46] := by decide
+  rw [this]; rfl
+
+/-- OBLIGATION over the regenerated `writeTestCases` / `writeFailure` statement lists -/
+theorem testCase_renders (s : St) (total : Nat) (n : Node) :
+    testCase s total n = (caseOf s.package s.group total n).render := by
+  simp only [testCase, interp, Gen.JUnitTemplates.caseOpen, Gen.JUnitTemplates.caseSkipped, Gen.JUnitTemplates.caseClose,
+    Gen.JUnitTemplates.failureElem, List.flatMap_cons, List.flatMap_nil, itemBytes, evalField, evalNum, evalN,
+    List.append_nil, Case.render, caseOf, encode_classname, fmtInt_eq_showInt, encodeXmlText_eq_ref, fmtPad3_millis,
+    showTime_eq, lit_empty]
+  cases hf : n.failure with
+  | none => simp only [Option.map_none, List.append_assoc]; split <;> rfl
+  | some f =>
+    simp only [Option.map_some, encode_failureMessage, fmtInt_eq_showInt, List.append_assoc]
+
+theorem testCases_renders (s : St) : ∀ (nodes : List Node) (total : Nat),
+    testCases s total nodes = (casesOf s.package s.group total nodes).flatMap Case.render
   | [], _ => rfl
   | n :: rest, total => by
-    simp [testCases, casesOf, testCase_renders, testCases_renders package group rest]
+    simp [testCases, casesOf, testCase_renders, testCases_renders s rest]
 
+theorem header_renders (s : St) :
+    interp (Ctx.ofSt s) Gen.JUnitTemplates.xmlHeader = lit "<?xml version=\"1.0\" encoding=\"UTF-8\" ?>\n" := by
+  simp only [interp, Gen.JUnitTemplates.xmlHeader, List.flatMap_cons, List.flatMap_nil, itemBytes, List.append_nil]
+
+theorem summary_renders (s : St) :
+    interp (Ctx.ofSt s) Gen.JUnitTemplates.suiteSummary =
+      lit "<testsuite errors=\"0\" failures=\"" ++ showInt (castInt s.failureCount) ++
+      lit "\" hostname=\"localhost\" name=\"" ++ encodeRef s.group ++ lit "\" tests=\"" ++ showInt (castInt s.testCount) ++
+      lit "\" time=\"" ++ showTime (castInt (s.groupExecTime / 1000 : Nat)) (s.groupExecTime % 1000) ++
+      lit "\" timestamp=\"" ++ s.timeString ++ lit "\">\n" := by
+  simp only [interp, Gen.JUnitTemplates.suiteSummary, List.flatMap_cons, List.flatMap_nil, itemBytes, evalField, evalNum,
+    evalN, Ctx.ofSt, List.append_nil, fmtInt_eq_showInt, encodeXmlText_eq_ref, fmtPad3_millis, showTime_eq, List.append_assoc]
+
+theorem properties_renders (s : St) :
+    interp (Ctx.ofSt s) Gen.JUnitTemplates.properties = lit "<properties>\n" ++ lit "</properties>\n" := by
+  simp only [interp, Gen.JUnitTemplates.properties, List.flatMap_cons, List.flatMap_nil, itemBytes, List.append_nil]
+
+theorem ending_renders (s : St) :
+    interp (Ctx.ofSt s) Gen.JUnitTemplates.fileEnding =
+      lit "<system-out>" ++ encodeRef s.stdOutput ++ lit "</system-out>\n" ++ lit "<system-err></system-err>\n" ++
+      lit "</testsuite>\n" := by
+  simp only [interp, Gen.JUnitTemplates.fileEnding, List.flatMap_cons, List.flatMap_nil, itemBytes, evalField, Ctx.ofSt,
+    List.append_nil, encodeXmlText_eq_ref, List.append_assoc]
+
+/-- OBLIGATION over all regenerated writer statement lists and the regenerated order of the writer calls:
+    what is written between open and close is the rendering of the structured report -/
 theorem fileBytes_renders (s : St) : fileBytes s = (suiteOf s).render := by
-  unfold fileBytes Suite.render suiteOf xmlHeader suiteSummary properties fileEnding
-  simp only [testCases_renders, fmtInt_eq_showInt, fmtTime_eq_showTime, encodeXmlText_eq_ref, List.append_assoc]
+  simp only [fileBytes, Gen.JUnitTemplates.groupFile, List.flatMap_cons, List.flatMap_nil, sectionBytes, header_renders,
+    summary_renders, properties_renders, ending_renders, testCases_renders, List.append_nil]
+  unfold Suite.render suiteOf
+  simp only [List.append_assoc]
+
+/-- OBLIGATION over the regenerated `resetTestGroupResult`: exactly the test count, the failure count, the
+    group name and the node list are cleared (NOT the check-count offset, NOT the captured output) -/
+@[simp] theorem reset_eq (s : St) : reset s = { s with testCount := 0, failureCount := 0, group := [], nodesRev := [] } := rfl
+
+/-- OBLIGATION over the regenerated `printCurrentGroupEnded`: take the group time, write, then reset -/
+@[simp] theorem groupEnded_eq (s : St) (ms : Nat) :
+    groupEnded s ms = (onGroupEnded s ms, [writeGroup { s with groupExecTime := ms }]) := rfl
 
 /-! ## structured fold -/
 
@@ -94,7 +161,7 @@ def toFile (r : Bytes × Suite) : File := { name := r.1, bytes := r.2.render }
 theorem step_files (s : St) (e : Ev) : (step s e).2 = (reportsOf s e).map toFile := by
   unfold step reportsOf
   cases hc : s.crashed
-  · cases e <;> simp [toFile, reportOf, writeGroup, fileBytes_renders]
+  · cases e <;> simp [toFile, reportOf, writeGroup, fileBytes_renders, groupEnded_eq, hc]
   · cases e <;> simp
 
 theorem fold_files : ∀ (evs : List Ev) (s : St),
@@ -182,7 +249,7 @@ theorem countsOk_step (s : St) (e : Ev) (h : CountsOk s) : CountsOk (step s e).1
         simp only [CountsOk, hn, List.length_cons, failedNodes, List.filter_cons] at h1 h2 ⊢
         refine ⟨h1, ?_⟩
         cases hf : n.failure <;> simp_all
-    | groupEnded ms => simp [onGroupEnded, reset, CountsOk, failedNodes]
+    | groupEnded ms => simp [groupEnded_eq, onGroupEnded, reset_eq, CountsOk, failedNodes]
     | testsEnded sm => exact ⟨h1, h2⟩
   · simpa using h
 
